@@ -96,6 +96,8 @@ func b01(b bool) string {
 
 func (m psMsg) tok() string {
 	switch m.Kind {
+	case "reconnect":
+		return "reconnect"
 	case "m1":
 		return "m1"
 	case "m3":
@@ -146,13 +148,14 @@ func (m psMsg) tok() string {
 	return m.Kind
 }
 
-func (m psMsg) noop() bool { return m.Kind == "badmethod" || m.Kind == "badstate" || m.Kind == "malformed" }
+func (m psMsg) noop() bool { return m.Kind == "reconnect" || m.Kind == "badmethod" || m.Kind == "badstate" || m.Kind == "malformed" }
 
 // ---- concretisation ------------------------------------------------------------------------------------
 
 type psConn struct {
 	addr    string
 	salt, B []byte
+	unknown bool                  // reconnected: salt and B of the new connection not seen yet
 	right   map[int]*refSRPClient // client key a, right setup code
 	wrong   map[int]*refSRPClient
 }
@@ -185,6 +188,14 @@ func (e *psEnv) name(n int) string {
 		s = e.f.name // the accessory's own device id (always a stored entity)
 	case n%5 == 1:
 		s = fmt.Sprintf("%08X-0000-4000-8000-%012X", n, n)
+	case n%5 == 2: // white space at the ends belongs to the name; "x" and "x " are different controllers
+		s = fmt.Sprintf("c%d", n-1) + []string{" ", "\t", "\n", "\u00a0"}[n/5%4]
+	case n%5 == 3:
+		if n/5%2 == 0 {
+			s = fmt.Sprintf(" c%d", n-2)
+		} else {
+			s = fmt.Sprintf("c%d", n-2) // the bare twin of the name with white space (index n-1)
+		}
 	}
 	e.names[n] = s
 	return s
@@ -290,17 +301,37 @@ func (e *psEnv) concretise(conn int, m psMsg) []byte {
 			var pk []byte
 			if m.KeyOk {
 				pk = e.ident(m.Key).Pub
+			} else if m.Key%6 == 5 {
+				// not a key: a genuine key followed by junk (the signature below is made over exactly these bytes)
+				pk = append(append([]byte{}, e.ident(m.Key).Pub...), randBytes(e.r, 8)...)
 			} else {
 				pk = randBytes(e.r, []int{0, 1, 31, 33, 64}[m.Key%5])
+			}
+			genuineSig := func(keyBytes []byte) []byte {
+				h := refHKDF(e.sBytes(m.SigS), "Pair-Setup-Controller-Sign-Salt", "Pair-Setup-Controller-Sign-Info")
+				info := append(append(append([]byte{}, h...), []byte(e.name(m.SigName))...), keyBytes...)
+				return ed25519.Sign(e.ident(m.Signer).Priv, info)
 			}
 			var sig []byte
 			switch m.SigKind {
 			case "valid":
-				h := refHKDF(e.sBytes(m.SigS), "Pair-Setup-Controller-Sign-Salt", "Pair-Setup-Controller-Sign-Info")
-				info := append(append(append([]byte{}, h...), []byte(e.name(m.SigName))...), e.ident(m.SigKey).Pub...)
-				sig = ed25519.Sign(e.ident(m.Signer).Priv, info)
-			case "garbage":
-				sig = randBytes(e.r, 64)
+				if !m.KeyOk && len(pk) == 40 {
+					sig = genuineSig(pk)
+				} else {
+					sig = genuineSig(e.ident(m.SigKey).Pub)
+				}
+			case "garbage": // not a signature: random bytes, or a genuine signature with junk appended / cut short / one bit flipped
+				switch m.N % 4 {
+				case 0:
+					sig = randBytes(e.r, 64)
+				case 1:
+					sig = append(genuineSig(e.ident(m.SigKey).Pub), randBytes(e.r, 3)...)
+				case 2:
+					sig = genuineSig(e.ident(m.SigKey).Pub)[:63]
+				default:
+					sig = genuineSig(e.ident(m.SigKey).Pub)
+					sig[e.r.Intn(64)] ^= 1 << uint(e.r.Intn(8))
+				}
 			}
 			items := []tlvOp{{tID, []byte(name)}}
 			if len(pk) > 0 {
@@ -525,6 +556,12 @@ func genPsHistory(r *rand.Rand, nconn int) []psStep {
 			}
 		}
 	}
+	// the peer drops a connection in the middle of an exchange and comes back from the same address, another port; the
+	// new connection starts from scratch whatever the old one had reached
+	if len(h) >= 2 && r.Intn(4) == 0 {
+		at := 1 + r.Intn(len(h)-1)
+		h = append(h[:at:at], append([]psStep{{h[0].Conn, psMsg{Kind: "reconnect"}}}, h[at:]...)...)
+	}
 	// track a guess of each connection's step so that most messages are plausible for the state they meet
 	phase := make([]int, nconn)
 	for _, s := range h {
@@ -585,6 +622,9 @@ func psCorpus() [][]psStep {
 		{{0, psMsg{Kind: "m1"}}, {0, validM3(0, 0)}, {0, psMsg{Kind: "m5", Short: 5}}, {0, genuineM5(0, 0, 7, 9)}},
 		{{0, genuineM5(0, 0, 7, 9)}},
 		{{0, psMsg{Kind: "m1"}}, {0, genuineM5(0, 0, 7, 9)}},
+		// the exchange is interrupted after the proof and "continued" on a new connection from the same address
+		{{0, psMsg{Kind: "m1"}}, {0, validM3(0, 0)}, {0, psMsg{Kind: "reconnect"}}, {0, genuineM5(0, 0, 7, 9)}},
+		{{0, psMsg{Kind: "m1"}}, {0, psMsg{Kind: "reconnect"}}, {0, validM3(0, 0)}, {0, genuineM5(0, 0, 7, 9)}},
 	}
 }
 
@@ -619,21 +659,31 @@ func checkC02(c *Ctx) {
 	}
 	// model: one line per (case, connection)
 	var lines []string
-	type lref struct{ ci, conn int }
+	type lref struct{ ci, conn, seg int }
 	var refs []lref
 	for ci, cs := range live {
 		for conn := 0; conn < cs.nconn; conn++ {
+			// a reconnect ends the connection: what follows runs on a new connection (a new run of the model, same id)
 			var toks []string
+			seg := 0
+			flush := func() {
+				if len(toks) > 0 {
+					lines = append(lines, fmt.Sprintf("pairsetup run 1 %d %s", conn, strings.Join(toks, " ; ")))
+					refs = append(refs, lref{ci, conn, seg})
+				}
+				toks = nil
+				seg++
+			}
 			for _, s := range cs.h {
 				if s.Conn == conn {
+					if s.Msg.Kind == "reconnect" {
+						flush()
+						continue
+					}
 					toks = append(toks, s.Msg.tok())
 				}
 			}
-			if len(toks) == 0 {
-				continue
-			}
-			lines = append(lines, fmt.Sprintf("pairsetup run 1 %d %s", conn, strings.Join(toks, " ; ")))
-			refs = append(refs, lref{ci, conn})
+			flush()
 		}
 	}
 	model := c.Model(lines)
@@ -663,9 +713,30 @@ func checkC02(c *Ctx) {
 		reached := false
 		var hist []string
 		for _, s := range cs.h {
+			if s.Msg.Kind == "reconnect" {
+				pc := env.conns[s.Conn]
+				env.f.CloseConn(pc.addr)
+				host := pc.addr[:strings.LastIndex(pc.addr, ":")]
+				pc.addr = fmt.Sprintf("%s:%d", host, 20000+r.Intn(20000))
+				// no prelude here: the new connection's first request is whatever the history sends next; its salt and B are
+				// learnt from the first start request that is answered (until then proofs are computed from the old ones)
+				pc.unknown = true
+				pc.right, pc.wrong = map[int]*refSRPClient{}, map[int]*refSRPClient{}
+				env.ldb.take()
+				accepted[s.Conn] = -1
+				implObs[ci] = append(implObs[ci], "reconnected")
+				hist = append(hist, fmt.Sprintf("c%d:reconnect", s.Conn))
+				continue
+			}
 			body := env.concretise(s.Conn, s.Msg)
 			st, resp, _, pm := env.f.Do(env.conns[s.Conn].addr, "POST", "/pair-setup", "application/pairing+tlv8", body)
 			saves, _ := env.ldb.take()
+			if pc := env.conns[s.Conn]; pc.unknown && s.Msg.Kind == "m1" && st == 200 {
+				if items, ok := refTlvParse(resp); ok && len(tlvGet(items, tSalt)) == 16 {
+					pc.salt, pc.B, pc.unknown = tlvGet(items, tSalt), tlvGet(items, tPubKey), false
+					pc.right, pc.wrong = map[int]*refSRPClient{}, map[int]*refSRPClient{}
+				}
+			}
 			obs := env.observe(st, resp, pm, saves)
 			implObs[ci] = append(implObs[ci], obs)
 			hist = append(hist, fmt.Sprintf("c%d:%s", s.Conn, s.Msg.tok()))
@@ -725,7 +796,16 @@ func checkC02(c *Ctx) {
 			if len(toks) == 0 {
 				continue
 			}
-			mo := modelObs[lref{ci, conn}]
+			var mo []string
+			seg := 0
+			for _, s := range cs.h {
+				if s.Conn == conn && s.Msg.Kind == "reconnect" {
+					mo = append(mo, modelObs[lref{ci, conn, seg}]...)
+					mo = append(mo, "reconnected")
+					seg++
+				}
+			}
+			mo = append(mo, modelObs[lref{ci, conn, seg}]...)
 			c.Same("pairsetup", cs.id, map[string]interface{}{"conn": conn, "messages": toks}, strings.Join(mo, " ; "), strings.Join(impl, " ; "))
 		}
 		if ci%40 == 0 && len(implObs[ci]) > 0 {
